@@ -149,13 +149,18 @@ def handle (c : Case) : CaseOut := Id.run do
               out := out.push s!"D {i} std={bit stdEq} partial={bit pEq}"
             else
               out := out.push s!"D {i} std={bit stdEq}"
-            if Radix.sortB mt xs != ml then
+            -- the bucket-level model costs 256·n key evaluations per round: cross-checked on short vectors only
+            if xs.length ≤ 12 && Radix.sortB mt xs != ml then
               -- cannot happen (Props.C17.placement_eq_buckets); made visible as a disagreement if it does
               out := out.push s!"D {i} model-levels-differ"
               stt := { stt with levelsDiffer := stt.levelsDiffer + 1 }
           -- statistics
           let d2 := distinct2 xs
-          let skipped := ((List.range mt.w).filter (fun k => Radix.skipRound mt k xs)).length
+          -- a round is skipped iff all keys of that round coincide (= `Radix.skipRound`, computed in O(n))
+          let skipped := ((List.range mt.w).filter (fun k =>
+            match xs with
+            | [] => true
+            | x0 :: l => l.all (fun x => Radix.key mt x k == Radix.key mt x0 k))).length
           let mixed := (st.kind == .signed || st.kind == .float) &&
             xs.any (fun x => decide (fneg st x)) && xs.any (fun x => !decide (fneg st x))
           stt := { stt with vectors := stt.vectors + 1, elements := stt.elements + xs.length }
